@@ -8,6 +8,7 @@ package seqhash
 // verif:bound C04 long-molecule clause: circular DNA of 33001 (quick) / 4099, 33001, 65537, 70001 (thorough) letters with two symbolic letters, rotation offsets 1, n/2, n-3
 // verif:bound C04 strand clause: sequences over the 15 IUPAC codes (plus U under RNA), both cases, length 1..3 (quick) / 1..4 (thorough), circular and linear
 // verif:bound C04 case clause: length 1..3 (quick) / 1..4 (thorough); RNA/DNA clause: length 1..4 (quick) / 1..5 (thorough); all four flag combinations
+// verif:bound C04 call-sequence clause: a hash of 2 symbolic ACGT letters, then a refused call (misspelt type / double-stranded protein) on a sequence of 2..3 symbolic ACGT letters, then that sequence and its rotation-by-one (circular) or reverse complement (linear double-stranded) hashed: equal
 // verif:bound C04 outside the claim: longer sequences (the quantifier goes to 10^5)
 // verif:assume C04 blake3.Sum256 is an uninterpreted function per input length (only congruence is used)
 
@@ -34,6 +35,36 @@ func Harness_C04_Rotation() {
 	vAssert(e1 == nil && e2 == nil, "accepted")
 	vAssert(vEqStr(h1, h2), "rotation-invariant")
 	vCover("C04 rotated by a non-zero offset", k > 0)
+}
+
+// the invariances hold whatever was hashed, or refused, earlier in the same process
+func Harness_C04_AfterOtherCalls() {
+	circ := vChoice(2) == 1
+	ds := vChoice(2) == 1
+	if !circ && !ds {
+		vAssume(false) // no rotation / strand partner to compare with
+	}
+	x := vBytes(2, "ACGT")
+	n := 2 + vChoice(2)
+	s := vBytes(n, "ACGT")
+	Hash(x, "DNA", circ, ds)
+	var e0 error
+	if vChoice(2) == 1 {
+		_, e0 = Hash(s, "dna", circ, ds) // refused: unknown type
+	} else {
+		_, e0 = Hash(s, "PROTEIN", circ, true) // refused: double-stranded protein
+	}
+	vAssert(e0 != nil, "refused-call-is-refused")
+	h1, e1 := Hash(s, "DNA", circ, ds)
+	partner := c04RC(s, c04CompTable())
+	tag := "strand-invariant"
+	if circ {
+		partner = s[1:] + s[:1]
+		tag = "rotation-invariant"
+	}
+	h2, e2 := Hash(partner, "DNA", circ, ds)
+	vAssert(e1 == nil && e2 == nil, "accepted")
+	vAssert(vEqStr(h1, h2), tag)
 }
 
 // longer circular sequences over the four bases (failure-function chains need length)
